@@ -235,6 +235,7 @@ func (ex *Exec) verifIntrinsic(st *PState, fn *ssa.Function, base string, args [
 	ts := ex.ts
 	switch base {
 	case "verifAssume":
+		ex.simplifyGuard(st)
 		c := args[0].(*Term)
 		ex.assume(ts.Implies(st.g, c))
 		if st.g.IsTrue() {
@@ -242,6 +243,7 @@ func (ex *Exec) verifIntrinsic(st *PState, fn *ssa.Function, base string, args [
 		}
 		return nil, true
 	case "verifAssert":
+		ex.simplifyGuard(st)
 		ex.addObligation(st, args[0].(*Term), "assert", constString(args[1]))
 		return nil, true
 	case "verifCover":
